@@ -862,7 +862,8 @@ class PureScheduler:                                    # pylint: disable=r0902
         # but to skip schedulers that have already shut down
 
         if self._did_shutdown:
-            return
+            # nothing to send, so nothing had to be cancelled
+            return True
 
         self._did_shutdown = True
 
